@@ -22,23 +22,23 @@ Lemma s_bind_eq (r : env -> val) (k : val -> env -> env) e v : r e = v -> s_bind
 Proof. intros <-. reflexivity. Qed.
 Lemma s_fors_eq vars x (c : env -> val) body e v : c e = v -> s_fors vars x c body e = s_for vars x v body e.
 Proof. intros <-. reflexivity. Qed.
-Lemma s_prints_ok (vs : env -> list val) e : existsb (@is_bad F) (vs e) = false -> s_prints vs e = upd "$printed" (VBool true) e.
+Lemma s_prints_ok (vs : env -> list val) e : existsb (@is_bad F) (vs e) = false -> s_prints vs e = upd N_printed (VBool true) e.
 Proof. intros H. unfold s_prints, s_print. now rewrite H. Qed.
 
 (* the frame is the identity on its names and unbound elsewhere *)
 Lemma restrict_in vars (e : env) x : In x vars -> restrict vars e x = e x.
 Proof. induction vars as [|y r IH]; intros H; [destruct H|]. cbn [restrict]. unfold upd.
-  destruct (String.eqb_spec x y) as [->|Hne]; [reflexivity|]. destruct H as [H|H]; [congruence|now apply IH]. Qed.
+  destruct (Pos.eqb_spec x y) as [->|Hne]; [reflexivity|]. destruct H as [H|H]; [congruence|now apply IH]. Qed.
 Lemma restrict_out vars (e : env) x : ~ In x vars -> restrict vars e x = VUnbound.
 Proof. induction vars as [|y r IH]; intros H; [reflexivity|]. cbn [restrict]. unfold upd.
-  destruct (String.eqb_spec x y) as [->|Hne]; [exfalso; apply H; now left|]. apply IH. intros G. apply H. now right. Qed.
+  destruct (Pos.eqb_spec x y) as [->|Hne]; [exfalso; apply H; now left|]. apply IH. intros G. apply H. now right. Qed.
 
 Lemma restrict_ext vars (e1 e2 : env) : Forall (fun x => e1 x = e2 x) vars -> restrict vars e1 = restrict vars e2.
 Proof. induction 1 as [|x r H _ IH]; [reflexivity|]. cbn [restrict]. now rewrite H, IH. Qed.
 
 Lemma for_range_S vars x fuel k body (e : env) :
   for_range vars x (S fuel) k body e =
-  match restrict vars (body (upd x (VInt (Z.of_nat k)) e)) "$break" with
+  match restrict vars (body (upd x (VInt (Z.of_nat k)) e)) N_break with
   | VBool true => restrict vars (body (upd x (VInt (Z.of_nat k)) e))
   | _ => for_range vars x fuel (S k) body (restrict vars (body (upd x (VInt (Z.of_nat k)) e)))
   end.
@@ -48,6 +48,23 @@ Lemma v_ge_1_S k : v_ge (VInt (Z.of_nat (S k))) (@VInt F 1) = VBool true.
 Proof. unfold v_ge. f_equal. apply Z.leb_le. lia. Qed.
 Lemma v_ge_1_0 : v_ge (VInt (Z.of_nat 0)) (@VInt F 1) = VBool false.
 Proof. reflexivity. Qed.
+(* derivation-style execution: one small lemma per statement *)
+Lemma run_seq_nil (e : env) : seq [] e = e. Proof. reflexivity. Qed.
+Lemma run_seq_cons (st : env -> env) l (e e1 x : env) : st e = e1 -> seq l e1 = x -> seq (st :: l) e = x.
+Proof. intros <- <-. reflexivity. Qed.
+Lemma run_assign x (r : env -> val) e v v' : r e = v -> v = v' -> s_assign x r e = upd x v' e.
+Proof. intros <- <-. reflexivity. Qed.
+Lemma run_bind (r : env -> val) (k : val -> env -> env) e v v' x : r e = v -> v = v' -> k v' e = x -> s_bind r k e = x.
+Proof. intros <- <- <-. reflexivity. Qed.
+Lemma run_ifs_true (c : env -> val) t f e v x : c e = v -> v = VBool true -> t e = x -> s_ifs c t f e = x.
+Proof. intros <- H <-. unfold s_ifs. now rewrite H. Qed.
+Lemma run_ifs_false (c : env -> val) t f e v x : c e = v -> v = VBool false -> f e = x -> s_ifs c t f e = x.
+Proof. intros <- H <-. unfold s_ifs. now rewrite H. Qed.
+Lemma run_ifs_err (c : env -> val) t f e v : c e = v -> v = VErr -> s_ifs c t f e = raise e.
+Proof. intros <- H. unfold s_ifs. now rewrite H. Qed.
+Lemma run_fors vars x (c : env -> val) body e v v' y : c e = v -> v = v' -> s_for vars x v' body e = y -> s_fors vars x c body e = y.
+Proof. intros <- <- <-. reflexivity. Qed.
+
 Lemma v_eq_int (a b : Z) : v_eq (VInt a) (@VInt F b) = VBool (a =? b)%Z. Proof. reflexivity. Qed.
 Lemma v_eq_unbound (x : val) : v_eq VUnbound x = VErr. Proof. reflexivity. Qed.
 Lemma s_if_err (t f : env -> env) e : s_if VErr t f e = raise e. Proof. reflexivity. Qed.
@@ -90,3 +107,36 @@ Ltac py_step ev :=
 (* equality of two frames: name by name, each side computed on the concrete name *)
 Ltac py_frames_eq solve1 :=
   apply restrict_ext; repeat (apply Forall_cons; [solve1|]); apply Forall_nil.
+
+(* [py_run ev hook loop]: solves a goal  <block> E = ?X  (or  = a concrete frame that is syntactically the result).
+   ev   : term -> term, computes expression values on a value environment;
+   hook : tactic rewriting the left-hand side of a goal  v = ?v'  with the propositional facts of the proof (then the
+          executor closes it by reflexivity); conditions must end up as VBool true / VBool false / VErr literals;
+   loop : tactic solving  s_for vars x cnt body E = ?Y. *)
+Ltac py_val ev hook t k :=
+  let v := ev t in
+  let H := fresh "pyH" in
+  eassert (H : v = _) by (hook; reflexivity);
+  k v H.
+Ltac py_run ev hook loop :=
+  lazymatch goal with
+  | |- seq [] ?E = _ => exact (run_seq_nil _ E)
+  | |- seq (?st :: ?l) ?E = _ =>
+      eapply (run_seq_cons _ st l E); [ py_run ev hook loop | py_run ev hook loop ]
+  | |- s_assign ?x ?r ?E = _ =>
+      py_val ev hook (r E) ltac:(fun v H => exact (run_assign _ x r E v _ (eq_refl v) H))
+  | |- s_bind ?r ?k ?E = _ =>
+      py_val ev hook (r E) ltac:(fun v H => eapply (run_bind _ r k E v _ _ (eq_refl v) H); clear H; cbv beta; py_run ev hook loop)
+  | |- s_ifs ?c ?t ?f ?E = _ =>
+      py_val ev hook (c E) ltac:(fun v H =>
+        lazymatch type of H with
+        | _ = VBool true => eapply (run_ifs_true _ c t f E v _ (eq_refl v) H); clear H; py_run ev hook loop
+        | _ = VBool false => eapply (run_ifs_false _ c t f E v _ (eq_refl v) H); clear H; py_run ev hook loop
+        | _ = VErr => exact (run_ifs_err _ c t f E v (eq_refl v) H)
+        | _ = ?w => fail 100 "py_run: condition does not evaluate to a literal:" w
+        end)
+  | |- s_fors ?vs ?x ?c ?b ?E = _ =>
+      py_val ev hook (c E) ltac:(fun v H => eapply (run_fors _ vs x c b E v _ _ (eq_refl v) H); clear H; loop)
+  | |- s_prints ?vs ?E = _ => exact (s_prints_ok _ vs E eq_refl)
+  | |- ?g => fail 100 "py_run: unexpected goal" g
+  end.
